@@ -166,6 +166,9 @@ func (i *IPFIX) run() {
 		ipfixUDPCh <- IPFIXUDPMsg{raddr, b[:n]}
 	}
 
+	// no more datagrams are queued: let the workers finish and leave
+	close(ipfixUDPCh)
+
 }
 
 func (i *IPFIX) shutdown() {
@@ -184,9 +187,7 @@ func (i *IPFIX) shutdown() {
 		logger.Println("couldn't not dump template", err)
 	}
 
-	// logging and close UDP channel
 	logger.Println("ipfix has been shutdown")
-	close(ipfixUDPCh)
 }
 
 func (i *IPFIX) ipfixWorker(wQuit chan struct{}) {
